@@ -37,4 +37,27 @@ def run(ck):
             it.world.smart_table.append(('pool_factory_contract', it.mkv(FQ, 'NativeTokenDecimals', denom=Str(d)), it.mk(PN + 'factory::NativeTokenDecimalsResponse', decimals=6)))
     for label, mk, who in variantsf:
         C16.run_variant(ck, 'terraswap_factory', setupf, label, mk, who, progf)
+    # after ownership is transferred the old owner loses and the new owner gains the rights - also when the transferring message carries every other
+    # option (fees, switches and a valid amplification ramp) at the same time
+    ramp = lambda it: SOME(it.mk(LT.TM + 'RampAmp', future_a=it.ctx.sym('new_amp', 64), future_block=it.ctx.sym('new_block', 64)))
+    fees = lambda it: SOME(it.mk(LT.TM + 'PoolFee', protocol_fee=LT.tfee(it, 1), swap_fee=LT.tfee(it, 1), burn_fee=LT.tfee(it, 1)))
+    for vname, mk_transfer in (
+            ('alone', lambda it: it.mkv(trx, 'UpdateConfig', owner=SOME(Str('new_owner')), fee_collector_addr=NONE(), pool_fees=NONE(), feature_toggle=NONE(), amp_factor=NONE())),
+            ('with_ramp', lambda it: it.mkv(trx, 'UpdateConfig', owner=SOME(Str('new_owner')), fee_collector_addr=NONE(), pool_fees=NONE(), feature_toggle=NONE(), amp_factor=ramp(it))),
+            ('with_all', lambda it: it.mkv(trx, 'UpdateConfig', owner=SOME(Str('new_owner')), fee_collector_addr=SOME(Str('second_collector')), pool_fees=fees(it), feature_toggle=SOME(toggles_off(it)), amp_factor=ramp(it)))):
+        def body(it, mk_transfer=mk_transfer):
+            c = it.ctx; setup3(it)
+            env = mk_env(it, 10**18, height=c.sym('height', 64))
+            r = enter(it, 'stableswap_3pool', 'execute', env, mk_info('owner', []), mk_transfer(it))
+            if r.variant != 'Ok': raise PathPruned()
+            caller = Str(None, sym=c.sym('caller'))
+            return enter(it, 'stableswap_3pool', 'execute', env, mk_info(ADDR(caller), []),
+                         it.mkv(trx, 'UpdateConfig', owner=NONE(), fee_collector_addr=SOME(Str('x_collector')), pool_fees=NONE(), feature_toggle=NONE(), amp_factor=NONE()))
+        n = 0
+        for p in ck.explore(prog3, body, 'stableswap_3pool.transfer_then.' + vname):
+            if p.ok:
+                n += 1
+                ck.oblige('C16.stableswap_3pool.transfer_then.%s.UpdateConfig' % vname, p, z3.Int('caller') != Str('new_owner').ident(),
+                          'after the transfer only the new owner is accepted (the old owner is not) - transfer sent %s' % vname.replace('_', ' '))
+        ck.require(n >= 1, 'stableswap_3pool.transfer_then.%s: no Ok path' % vname)
     ck.bounds['trio'] = 'three-asset pool UpdateConfig (owner/toggles, fees, ramp) and the factory\'s CreateTrio / UpdateTrioConfig'
